@@ -109,7 +109,9 @@ ObserveItems(e) ==
                                        \* is some ancestor group reachable through more than one link, and
                                        \* is the object itself shown under another (alias) path?
                                        aliased |-> \E k \in 1..(Len(pc) - 1) : InDegree(Resolve(SubSeq(pc, 1, k))) >= 2,
-                                       elsewhere |-> \E i \in idx : rid(i) = Resolve(pc)])
+                                       elsewhere |-> \E i \in idx : rid(i) = Resolve(pc),
+                                       \* is it a member of a group that was created with dense link storage?
+                                       dense |-> Len(pc) >= 2 /\ ParentOf(pc) # -1 /\ objs[ParentOf(pc)].t = <<"dense">>])
        \o SetToSeq(extra, LAMBDA i : [diag |-> "extra-path", p |-> T[i].p, k |-> T[i].k])
        \o SetToSeq(wrongk, LAMBDA i : [diag |-> "wrong-kind", p |-> T[i].p, got |-> T[i].k, exp |-> objs[rid(i)].k])
        \o SetToSeq(ident, LAMBDA i : [diag |-> "hardlink-identity", p |-> T[i].p])
@@ -158,6 +160,15 @@ Step(e) ==
               THEN Reject(e, "invalid-create-accepted", "hardlink-target-missing") /\ UNCHANGED stats
               ELSE AddLink(e.pc, Resolve(e.tc)) /\ Bump("links") /\ UNCHANGED <<fclosed, cfg, bad, skip>>
          ELSE IF SureOf(e) /\ CreateDefect(e.pc) = "" /\ Resolve(e.tc) # -1 THEN Refused(e, e.msg)
+         ELSE Keep /\ BumpErr
+    [] e.op = "mkgroupl" ->      \* group created together with e.nlinks hard links to e.tc: all or nothing
+         LET valid == CreateDefect(e.pc) = "" /\ (e.nlinks = 0 \/ Resolve(e.tc) # -1) IN
+         IF e.res = "ok"
+         THEN IF ~valid THEN Reject(e, "invalid-create-accepted", IF CreateDefect(e.pc) # "" THEN CreateDefect(e.pc) ELSE "hardlink-target-missing") /\ UNCHANGED stats
+              ELSE AddObjL(e.pc, [i \in {e.names[k] : k \in 1..e.nlinks} |-> Resolve(e.tc)]) /\ Bump("creates") /\ UNCHANGED <<fclosed, cfg, bad, skip>>
+         \* 1..8 links may be refused as not supported; an empty or a dense request that is valid must succeed
+         ELSE IF valid /\ ~fclosed /\ e.nlinks \notin 1..8 THEN Reject(e, "valid-call-rejected", [nlinks |-> e.nlinks, msg |-> e.msg,
+                                                                                             parentdense |-> ParentOf(e.pc) # -1 /\ objs[ParentOf(e.pc)].t = <<"dense">>]) /\ UNCHANGED stats
          ELSE Keep /\ BumpErr
     [] e.op = "write" ->
          LET id == Resolve(e.pc) IN
